@@ -573,5 +573,6 @@ func runC03(r *Run) {
 	r.Cases(30000, r.N(500, 8000), 0, func(c *Case, rng *Rng) { c03Free(c, rng) })
 	r.Cases(40000, r.N(24, 200), 8, func(c *Case, rng *Rng) { c03Operator(r, c, rng) })
 	r.Cases(50000, r.N(200, 2000), 0, func(c *Case, rng *Rng) { c03LoaderGen(c, rng) })
+	r.Cases(55000, r.N(300, 3000), 0, func(c *Case, rng *Rng) { c03Controller(c, rng) })
 	r.Cases(60000, r.N(40, 300), 8, func(c *Case, rng *Rng) { c03OperatorMulti(r, c, rng) })
 }
